@@ -1,5 +1,7 @@
 import GoitProofs.Props.C17Cmd
 import GoitProofs.Props.C13
+import GoitProofs.Props.C09Staged
+import GoitProofs.Props.C09
 
 /-! # C17: `status` never lists a path inside Goit's directory or an ignored path as untracked -/
 
@@ -13,5 +15,28 @@ theorem status_never_lists_ignored (H : HashFn) (w : WS) (st : Status) (h : stat
   refine ⟨fun hm => ?_, hig, hdirs⟩
   rw [ignored_meta w p hm] at hig
   cases hig
+
+end C17
+
+namespace C17
+
+open Cmds
+
+/-- **`restore` never overwrites Goit's own files**: it rewrites tracked paths only, and no tracked path lies
+    inside the metadata directory (`addArgs_no_meta`: `add` never stages one). -/
+theorem restore_never_writes_meta (w : WS) (args : List Bytes) (r : List Entry) (h : restoreWork w args = .ok r)
+    (hn : NoMeta w.index) : ∀ e ∈ r, ¬ IsMeta e.path :=
+  fun e he => hn e (C09.restore_only_tracked w args r h e he)
+
+/-- the same for `restore --staged`: entries come from the staging area or from HEAD's snapshot, so if neither
+    holds a path inside the metadata directory, neither does the result -/
+theorem restoreStaged_no_meta (snap : List Entry) (hs : C06.Canonical snap) (args : List Bytes) (idx : List Entry)
+    (hi : C06.Canonical idx) (idx' : List Entry) (h : restoreStagedArgs snap args idx = (true, idx'))
+    (hn : NoMeta idx) (hns : NoMeta snap) : NoMeta idx' := by
+  obtain ⟨_, hat, hfr⟩ := C09.restoreStaged_exact snap hs args idx hi idx' h
+  intro e he
+  by_cases hnm : C09.Named args e.path
+  · exact hns e ((hat e hnm).1 he)
+  · exact hn e ((hfr e hnm).1 he)
 
 end C17
